@@ -149,6 +149,11 @@ def c02_build(n: int, w: int, share: bool, twin: bool, lw: bool, bare: bool, p0:
   # 2. built graph mirrors the config graph, including aliasing
   if canon(built) != canon(exp):
     return False
+  # 2b. one leaf-only tuple object referenced from both slots of the root is one built object (canon compares tuples
+  # of constants by value, so this identity is checked directly)
+  if lw and share and w == 2 and not any(0 <= t < n - 1 for t in targets[n - 1]):
+    if built.pos[0] is not built.pos[1]:
+      return False
   # 3. a second build shares no built object with the first
   built2 = fdl.build(root)
   ids1 = mutable_ids(built)
@@ -195,6 +200,35 @@ def c02_temporaries(n: int, v: int) -> bool:
   return len({id(t.d['a']) for t in tables}) == n
 
 
+def c02_deep(depth: int, v: int) -> bool:
+  """
+  A chain of `depth` nested Configs next to an early sibling: whether the build succeeds or gives up (RecursionError on
+  very deep chains), no Config is invoked more than once within the one fdl.build call.
+  require: 1 <= depth <= 600
+  """
+  for c in (1, 2, 5, 600):
+    if depth == c:
+      depth = c
+      break
+  else:
+    depth = 1
+  chain = fdl.Config(fam.g2, x=v)
+  for _ in range(depth):
+    chain = fdl.Config(fam.g2, x=[chain])
+  root = fdl.Config(fam.g0, x=fdl.Config(fam.g1, x=v), y={'deep': chain})
+  sigs.reset_log()
+  note('c02d', depth)
+  try:
+    fdl.build(root)
+    finished = True
+  except RecursionError:
+    finished = False
+  names = [nm for nm, _ in sigs.LOG]
+  if names.count('g1') > 1 or names.count('g0') > 1 or names.count('g2') > depth + 1:
+    return False
+  return not finished or (names.count('g1') == 1 and names.count('g2') == depth + 1 and names.count('g0') == 1)
+
+
 def obligations(tier, seed):
   cubes = []
   allk = [(a, b, c) for a in (False, True) for b in (False, True) for c in (False, True)]
@@ -232,4 +266,6 @@ def obligations(tier, seed):
                                    dict(smoke, w=3, twin=False, bare=True, t2x=-1, t2y=-1, t3y=-1),
                                    dict(smoke, w=5, twin=False, bare=True, share=False, t1x=-1, t2y=-1)]),
           Obligation('c02_temporaries', c02_temporaries, [Cube(f'n{n}', [], dict(n=n)) for n in (2, 3, 40)], timeout=120,
-                     path_timeout=60, smoke=dict(n=400, v=7), extra_smokes=[dict(n=40, v=0)])]
+                     path_timeout=60, smoke=dict(n=400, v=7), extra_smokes=[dict(n=40, v=0)]),
+          Obligation('c02_deep', c02_deep, [Cube(f'd{d}', [], dict(depth=d)) for d in (1, 2, 5)], timeout=120,
+                     path_timeout=60, smoke=dict(depth=600, v=7), extra_smokes=[dict(depth=5, v=0)])]
